@@ -170,6 +170,22 @@ static void timer_reclock_round(void){ struct trc *x=calloc(1,sizeof *x); dispat
   atomic_store(&x->held,0); dispatch_source_cancel(s); dispatch_release(s); dispatch_release(q);
   for(int w=0; w<5000 && !atomic_load(&x->fins); w++) usleep(200);
   if(atomic_load(&x->fins)!=1) fail("a cancelled and released timer source was not finalised exactly once: runs",atomic_load(&x->fins),0,0); }
+// suspension takes and gives back internal references: after nests that use the side suspend count (64 and more), or a suspension
+// of a still inactive queue, the balance must be exact - the queue is finalised once after the last release, not never
+struct sq { _Atomic int fins; };
+static void sq_fin(void *c){ struct sq *x=c; atomic_fetch_add(&x->fins,1); }
+static void suspend_round(void){ struct sq *x=calloc(1,sizeof *x); int variant=(int)(rnd()%3);
+  dispatch_queue_attr_t a = variant==2 ? dispatch_queue_attr_make_initially_inactive(DISPATCH_QUEUE_SERIAL) : (rnd()%2?DISPATCH_QUEUE_CONCURRENT:DISPATCH_QUEUE_SERIAL);
+  dispatch_queue_t q=dispatch_queue_create("sq",a); dispatch_set_context(q,x); dispatch_set_finalizer_f(q,sq_fin);
+  if(variant==2){ dispatch_suspend(q); dispatch_resume(q); dispatch_activate(q); }
+  else { int deep=64+(int)(rnd()%70), back=32+(int)(rnd()%(unsigned)(deep-32)), more=1+(int)(rnd()%3);
+    for(int i=0;i<deep;i++) dispatch_suspend(q); for(int i=0;i<back;i++) dispatch_resume(q);      // inline count low or 0, side count in use
+    for(int i=0;i<more;i++) dispatch_suspend(q); for(int i=0;i<deep-back+more;i++) dispatch_resume(q); }
+  __block _Atomic int ran=0; dispatch_async(q,^{ atomic_store(&ran,1); }); for(int w=0; w<5000 && !atomic_load(&ran); w++) usleep(200);
+  if(!atomic_load(&ran)) fail("an item did not run after balanced suspensions: variant",variant,0,0);
+  dispatch_release(q);
+  for(int w=0; w<25000 && !atomic_load(&x->fins); w++) usleep(200);
+  if(atomic_load(&x->fins)!=1) fail("a queue was not finalised exactly once within 5 s of its last release after balanced suspensions (0 deep nest through the side count, 2 suspended while inactive): variant/finalizer runs",variant,atomic_load(&x->fins),0); }
 static void data_round(void){ enum { N=5 }; _Atomic int *d=calloc(N,sizeof *d); dispatch_queue_t dq=dispatch_get_global_queue(0,0); dispatch_data_t leaf[N];
   for(int i=0;i<N;i++){ size_t sz=64+rnd()%4096; void *buf=malloc(sz); memset(buf,i,sz); leaf[i]=dispatch_data_create(buf,sz,dq,^{ if(atomic_fetch_add(&d[i],1)) fail("a data destructor ran more than once: leaf",i,0,0); free(buf); }); }
   dispatch_data_t objs[16]; int no=0;
@@ -184,7 +200,7 @@ static void data_round(void){ enum { N=5 }; _Atomic int *d=calloc(N,sizeof *d); 
   for(int w=0; w<5000; w++){ int all=1; for(int j=0;j<N;j++) if(!atomic_load(&d[j])) all=0; if(all) break; usleep(200); }
   for(int j=0;j<N && !viol;j++) if(atomic_load(&d[j])!=1) fail("a data destructor did not run exactly once after the last reference to its data was dropped: leaf/runs",j,atomic_load(&d[j]),0); }
 static int nrounds, do_trace;
-static void *worker(void *a){ long me=(long)a; for(int r=0;r<nrounds && !viol;r++){ hierarchy(do_trace && me==0); if(r%4==0) source_round(); if(r%5==1) timer_reclock_round(); if(r%3==0) data_round(); if(r%2==0) retarget_round(do_trace && me==0); } return 0; }
+static void *worker(void *a){ long me=(long)a; for(int r=0;r<nrounds && !viol;r++){ hierarchy(do_trace && me==0); if(r%4==0) source_round(); if(r%5==1) timer_reclock_round(); if(r%4==2) suspend_round(); if(r%3==0) data_round(); if(r%2==0) retarget_round(do_trace && me==0); } return 0; }
 static void on_crash(int sig){ char b[220]; int n=snprintf(b,sizeof b,"ORACLE VIOL seed=%llu the library trapped or crashed (signal %d) during object life cycles (its own over-release / resurrection / corrupt-state check, or a use after free)\n",(unsigned long long)seed,sig); if(n>0) (void)!write(1,b,(size_t)n); _exit(1); }
 int main(int argc,char**argv){ seed=argc>1?strtoull(argv[1],0,0):1; nrounds=argc>2?atoi(argv[2]):60; int nthr=argc>3?atoi(argv[3]):3; do_trace=1;
   if(!getenv("ASAN_OPTIONS")){ signal(SIGILL,on_crash); signal(SIGSEGV,on_crash); signal(SIGABRT,on_crash); signal(SIGBUS,on_crash); }
